@@ -23,7 +23,7 @@ ID = 'C09'
 LEVEL = 'proof'
 TRANSLATE = None
 GEN_FILES = ['GenAlias.v', 'GenHandles.v']
-RUN_FILES = ['Corr.v', 'TieAlias.v', 'TieHandles.v', 'Properties.v']
+RUN_FILES = ['Corr.v', 'TieAlias.v', 'TieHandles.v', 'Properties.v', 'PropertiesState.v']
 COQ_TIMEOUT = 900
 
 S = 'src/scippneutron/'
@@ -53,8 +53,11 @@ ALLOWED = {'beamline._drop_due_to_gravity': ['distance'], 'fit_peaks._separate_f
 def theorem_functions():
     """the (function key, theorem suffix) pairs of coq-run/C09/TieAlias.v, read from that file"""
     import re
-    txt = open(os.path.join(vlib.VERIF, 'coq-run', 'C09', 'TieAlias.v')).read()
-    return re.findall(r'Theorem no_arg_write_(\w+) : no_arg_write (F_\w+)\.', txt)
+    out = []
+    for fn in ('TieAlias.v', 'PropertiesState.v'):
+        txt = open(os.path.join(vlib.VERIF, 'coq-run', 'C09', fn)).read()
+        out += re.findall(r'Theorem (?:no_arg_write_|C09_)(\w+) : no_arg_write (F_\w+)\.', txt)
+    return out
 
 
 # ------------------------------------------------------------------ half (b): the operations
@@ -252,3 +255,310 @@ def write_gen_handles(ctx, rep):
     lines.append('Definition OPS : list opdesc := (' + ' ++ '.join(f'OPS_{f}' for f, _, _ in FAMILIES) + ')%list.')
     open(os.path.join(ctx.build, 'GenHandles.v'), 'w').write('\n'.join(lines) + '\n')
     ctx.op_facts = facts
+
+
+# ------------------------------------------------------------------ correspondence
+VARIANTS = [{'dtype': 'float64', 'unit': 0}, {'dtype': 'float64', 'unit': 1}, {'dtype': 'float32', 'unit': 0},
+            {'dtype': 'int64', 'unit': 0}]
+PCLASS = {'fresh': 'PFresh', 'maybe': 'PMaybe', 'view': 'PView', 'shallow': 'PShallow', 'out': 'POut', 'fresh-scalar': 'PView'}
+
+
+def combos(tier, seed):
+    cs = []
+    layouts = ['1d', 'scalar', '2d']
+    for vi, v in enumerate(VARIANTS):
+        for li, lay in enumerate(layouts):
+            if tier == 'quick' and not (lay == '1d' or (vi == 0)):
+                continue          # quick: every variant 1-d, the aligned variant also scalar and broadcast
+            cs.append({'variant': v, 'layout': lay, 'seed': seed % 100000 + 17 * vi + li})
+    if tier != 'quick':
+        cs += [{'variant': v, 'layout': lay, 'seed': seed % 100000 + 1000 + k} for k in range(3) for v in VARIANTS for lay in layouts]
+    return cs
+
+
+def op_paths(facts, op):
+    name, fkey, keys, kind = op
+    if kind in ('dict', 'model'):
+        return [None]
+    if kind.startswith('builder:'):
+        return [None] + kind.split(':')[1].split(',')
+    return ([] if facts[name].get('frozen') else [None]) + list(facts[name].get('paths', []))
+
+
+def gen_histories(rng, tier, facts):
+    inst = []       # (op index, key)
+    for i, op in enumerate(OPS):
+        for k in range(NKEYS[op[2]]):
+            inst.append((i, k))
+    paths = {i: op_paths(facts, op) for i, op in enumerate(OPS)}
+
+    def mut_all(h, i):
+        return [['mut', h, p] for p in paths[i]]
+    hs = []
+    cap = 700 if tier == 'quick' else 10 ** 9
+    for fam, a, b in FAMILIES:
+        fi = [x for x in inst if a <= x[0] < b]
+        triples = [(x, y, z) for x in fi for y in fi for z in fi]
+        if len(triples) > cap:
+            triples = rng.sample(triples, cap)
+        for x, y, z in triples:       # A: call, mutate everything reachable, call, mutate, call
+            hs.append([['call', *x]] + mut_all(0, x[0]) + [['call', *y]] + mut_all(1, y[0]) + [['call', *z]])
+        for x in fi:                  # B: one path at a time; D: mutation of an older handle
+            for p in paths[x[0]]:
+                for y in fi:
+                    hs.append([['call', *x], ['mut', 0, p], ['call', *y]])
+            for y in fi[:4]:
+                hs.append([['call', *x], ['call', *y]] + mut_all(0, x[0]) + [['call', *x]])
+    for _ in range(300 if tier == 'quick' else 3000):     # C: across families
+        x, y, z = rng.choice(inst), rng.choice(inst), rng.choice(inst)
+        hs.append([['call', *x]] + mut_all(0, x[0]) + [['call', *y]] + mut_all(1, y[0]) + [['call', *z]])
+    return hs
+
+
+def hist_term(h):
+    acts = []
+    for a in h:
+        if a[0] == 'call':
+            acts.append(f'Call {a[1]} {a[2]}%N')
+        else:
+            p = 'None' if a[2] is None else f'(Some "{a[2]}")'
+            acts.append(f'Mutate {a[1]} {p} 7%N')
+    return '[' + '; '.join(acts) + ']'
+
+
+def bl(b):
+    return 'true' if b else 'false'
+
+
+def opt(b):
+    return 'None' if b is None or isinstance(b, str) else f'(Some {bl(b)})'
+
+
+def correspondence(ctx):
+    rng = random.Random(ctx.seed)
+    facts = getattr(ctx, 'op_facts', None)
+    if facts is None:
+        raise RuntimeError('pre_build did not run')
+    hists = gen_histories(rng, ctx.tier, facts)
+    named = [[[a[0], OPS[a[1]][0], a[2]] if a[0] == 'call' else a for a in h] for h in hists]
+    cmb = combos(ctx.tier, ctx.seed)
+    res = ctx.run_impl('c09_impl.py', {'mode': 'all', 'combos': cmb, 'histories': named})
+    terms, descs = [], []
+    for r in res['rows']:
+        terms.append(f'CRow "{r["name"]}" {PCLASS[r["cls"]]} {opt(r["when_true"])} {opt(r["when_false"])}')
+        descs.append({'kind': 'row', **r})
+        if isinstance(r['when_true'], str) or isinstance(r['when_false'], str):
+            ctx.violation('alias-row-error:' + r['name'], f'aliasing row {r["name"]} could not be evaluated: {r}', r, found_input=False)
+    skipped = []
+    for c in res['calls']:
+        if c['status'] in ('skip', 'harness-error'):
+            skipped.append({k: c.get(k) for k in ('label', 'why', 'error', 'combo')})
+            continue
+        rep = c.get('repeat_equal')
+        terms.append(f'CCall "{c["label"]}" {bl(not c.get("changed"))} {bl(rep is not False)}')
+        descs.append({'kind': 'call', **c})
+    for h, nh, r in zip(hists, named, res['histories']):
+        if r['error']:
+            ctx.violation('history-harness-error', f'history {nh} raised: {r["error"][-200:]}', {'history': nh, 'error': r['error']},
+                          found_input=False)
+            continue
+        # mutations the implementation could not perform (attribute is None / undefined for that isotope) are
+        # not part of the executed history
+        ap = iter(r['applied'])
+        keep = [a[0] == 'call' or next(ap) for a in h]
+        h2 = [a for a, k_ in zip(h, keep) if k_]
+        nh2 = [a for a, k_ in zip(nh, keep) if k_]
+        terms.append(f'CHist {hist_term(h2)} [{"; ".join(bl(b) for b in r["flags"])}]')
+        descs.append({'kind': 'history', 'history': nh2, 'observed_pristine': r['flags']})
+    header = ('From Coq Require Import List String Bool NArith.\nFrom Verif.Sem Require Import Corr.\n'
+              'From Verif.C09 Require Import Alias Handles.\nFrom Run Require Import GenAlias GenHandles Corr.\n'
+              'Import ListNotations.\nOpen Scope string_scope.\n')
+    fails, errors = ctx.coq_eval_shards(header, terms, lambda k: 'Eval vm_compute in (report (map (check_case OPSV) cases)).\n')
+    for name, e in errors:
+        ctx.violation('corr-shard-error', f'correspondence shard {name} did not evaluate: {e[:300]}', {'shard': name, 'error': e},
+                      found_input=False)
+    # shortest failing history first (one replay per failure class)
+    for i, why in sorted(fails.items(), key=lambda kv: (len(descs[kv[0]].get('history', [])), kv[0])):
+        d = descs[i]
+        if d['kind'] == 'call' and d['label'].endswith('[aligned]'):
+            d = dict(d, label=d['label'][:-len('[aligned]')], combo=dict(d['combo'], aligned=d.get('aligned')))
+        if d['kind'] == 'row':
+            ctx.violation(f'alias-row:{d["name"]}', f'aliasing classification row "{d["name"]}" ({d["cls"]}) disagrees with scipp '
+                          f'{res.get("scipp")}: {why} (shares when condition holds: {d["when_true"]}, when it fails: {d["when_false"]})', d)
+        elif d['kind'] == 'call':
+            if why == 'argument-modified':
+                ctx.violation(f'arg-modified:{d["label"]}', f'{d["label"]} modified an argument (first difference at {d["changed"]}) '
+                              f'with {d["combo"]}', {'call': d['label'], 'combo': d['combo'], 'changed': d['changed']})
+            else:
+                ctx.violation(f'history:{d["label"]}', f'{d["label"]} returned a different result when called a second time with the '
+                              f'same arguments ({d.get("repeat_diff")}), {d["combo"]}',
+                              {'call': d['label'], 'combo': d['combo'], 'repeat_diff': d.get('repeat_diff')})
+        else:
+            calls = [a for a in d['history'] if a[0] == 'call']
+            bad = [c[1] for c, f in zip(calls, d['observed_pristine']) if not f]
+            if why == 'model-prediction-differs':
+                ctx.violation('model-mismatch', 'the Handles model (descriptors of this run) predicts '
+                              f'another outcome than the implementation shows for history {d["history"]}: observed pristine flags '
+                              f'{d["observed_pristine"]}', d)
+            else:
+                ctx.violation(f'shared-result:{bad[0]}', f'{bad[0]} returns a result that depends on what callers did to earlier '
+                              f'results: history {d["history"]} -> pristine flags {d["observed_pristine"]}', d)
+    try:
+        import re
+        out = coq_query(ctx, 'From Run Require Import TieHandles.\nEval vm_compute in shared_ops.\n', 'shared_ops.v')
+        ctx.coverage['model_shared_operations'] = re.findall(r'"([^"]+)"', out.split('= ')[-1]) if '= ' in out else out[-200:]
+    except Exception as ex:      # noqa: BLE001
+        ctx.coverage['model_shared_operations'] = f'not evaluated: {ex}'
+    labels = sorted({d['label'] for d in descs if d['kind'] == 'call'})
+    n_hist = sum(1 for d in descs if d['kind'] == 'history')
+    distinct = len({json.dumps(d.get('history') or [d.get('label'), d.get('combo')] or d.get('name'), sort_keys=True, default=str)
+                    for d in descs if d['kind'] != 'call' or d['status'] == 'ok'})
+    ctx.coverage.update({
+        'evaluations': len(terms),
+        'distinct_nontrivial': distinct,
+        'rule': 'rows: one per primitive of the aliasing table; calls: public entry points of conversion.tof/beamline, '
+                'tof.chopper_cascade, peaks, absorption, chopper, io, atoms, graph factories x (dtype, unit, layout) variants '
+                '(non-trivial = the call returned normally; a refusal still has its arguments checked); histories: ordered '
+                'triples / pairs of factory-lookup instances with mutation of every returned handle through every path '
+                f'({"sampled 700 triples per family" if ctx.tier == "quick" else "all triples"}); distinct = distinct (label, variant) / history',
+        'samples': [descs[0], next(d for d in descs if d['kind'] == 'call'), next(d for d in descs if d['kind'] == 'history'), descs[-1]],
+        'alias_rows': sum(1 for d in descs if d['kind'] == 'row'),
+        'calls': sum(1 for d in descs if d['kind'] == 'call'),
+        'calls_returning': sum(1 for d in descs if d['kind'] == 'call' and d['status'] == 'ok'),
+        'entry_points': len(labels),
+        'entry_point_list': labels,
+        'not_exercised': skipped[:40],
+        'histories': n_hist,
+        'histories_exhaustive': ctx.tier != 'quick',
+        'disagreements': len(fails),
+        'scipp_version': res.get('scipp'),
+        'conservative_rows': [d['name'] for d in descs if d['kind'] == 'row' and d['cls'] == 'maybe' and d['when_true'] is False],
+        'variants': cmb,
+    })
+
+
+# ------------------------------------------------------------------ search / replay
+def coq_query(ctx, body, name='query.v'):
+    """evaluate a small Coq script against this run's generated modules; returns the raw output"""
+    txt = ('From Coq Require Import List String Bool NArith.\nFrom Verif.C09 Require Import Alias Handles.\n'
+           'From Run Require Import GenAlias GenHandles.\nImport ListNotations.\nOpen Scope string_scope.\n' + body)
+    open(os.path.join(ctx.build, name), 'w').write(txt)
+    rc, out = ctx.coqc(name, timeout=600)
+    return vlib.clean_out(out)
+
+
+def search(ctx, broken):
+    """an obligation broke.  (1) ask Coq for the violating aliasing configuration of the function(s) whose theorem
+    broke and translate it back to source lines; (2) evaluate the PROPERTY on the implementation: all entry points x
+    all (dtype, unit, layout) variants x several seeds with snapshots, and the histories for the operations the model
+    now calls shared."""
+    import re
+    found = []
+    rep = getattr(ctx, 'alias_report', None)
+    tf = dict((suf, f) for suf, f in theorem_functions())
+    names = set()
+    really = {o[0] for o in ctx.obligations if o[1] == 'broken'}
+    for b in broken:
+        if b not in really:
+            continue                  # 'unchecked' because an earlier lemma of the file failed
+        m = re.search(r':(?:no_arg_write_|C09_)(\w+)$', b)
+        if m and m.group(1) in tf:
+            names.add(tf[m.group(1)])
+    cfg_notes = []
+    if rep and names:
+        q = ''.join(f'Eval vm_compute in ("{f}", first_bad PROG LOOPSITES 8 {f}, '
+                    f'match first_bad PROG LOOPSITES 8 {f} with Some c => (wr (run PROG LOOPSITES c 8 {f}), ok (run PROG LOOPSITES c 8 {f})) '
+                    f'| None => ([], true) end).\n' for f in sorted(names))
+        out = coq_query(ctx, q)
+        for f in sorted(names):
+            m = re.search(r'"' + f + r'",\s*(Some \[[^\]]*\]|None)', out.replace('\n', ' '))
+            cfgtxt = m.group(1) if m else '?'
+            sites = [int(x) for x in re.findall(r'\d+', cfgtxt)] if cfgtxt.startswith('Some') else []
+            lines = [f'site {s_}: {rep["sites"][str(s_)]["function"]} line {rep["sites"][str(s_)]["line"]}: '
+                     f'{rep["sites"][str(s_)]["text"]}' for s_ in sites if str(s_) in rep['sites']]
+            cfg_notes.append({'function': f, 'violating_configuration': cfgtxt, 'aliasing_sites': lines})
+        ctx.note('violating aliasing configurations: ' + json.dumps(cfg_notes)[:1500])
+        ctx.coverage['violating_configurations'] = cfg_notes
+    if any(v.found_input for v in ctx.violations):
+        return [v.key for v in ctx.violations if v.found_input]
+    # wider sweep on the implementation
+    cmb = [{'variant': v, 'layout': lay, 'seed': ctx.seed % 100000 + 5000 + k} for k in range(3) for v in VARIANTS
+           for lay in ('1d', 'scalar', '2d')]
+    res = ctx.run_impl('c09_impl.py', {'mode': 'calls', 'combos': cmb})
+    for c in res['calls']:
+        if c.get('changed'):
+            ctx.violation(f'arg-modified:{c["label"]}', f'{c["label"]} modified an argument (first difference at {c["changed"]}) '
+                          f'with {c["combo"]}', {'call': c['label'], 'combo': c['combo'], 'changed': c['changed']})
+            found.append(c['label'])
+        elif c.get('repeat_equal') is False:
+            ctx.violation(f'history:{c["label"]}', f'{c["label"]} returned a different result when called a second time',
+                          {'call': c['label'], 'combo': c['combo'], 'repeat_diff': c.get('repeat_diff')})
+            found.append(c['label'])
+    if not found and cfg_notes:
+        ctx.violation('broken-alias-obligation:' + cfg_notes[0]['function'],
+                      f'the alias analysis of the current source finds a configuration in which {cfg_notes[0]["function"]} '
+                      f'writes an argument ({cfg_notes[0]}), but no call of the implementation showed a modified argument',
+                      {'configurations': cfg_notes}, found_input=False)
+    return found
+
+
+def replay(ctx, obj):
+    r = obj['replay']
+    print(json.dumps({k: obj[k] for k in ('property', 'key', 'what')}, indent=1))
+    if 'call' in r:
+        res = ctx.run_impl('c09_impl.py', {'mode': 'calls', 'combos': [r['combo']], 'only': [r['call']]})
+        for c in res['calls']:
+            print('observed :', {k: c.get(k) for k in ('label', 'status', 'changed', 'repeat_equal', 'repeat_diff')})
+        print('required : changed = None (no argument differs after the call) and repeat_equal = True')
+        bad = any(c.get('changed') or c.get('repeat_equal') is False for c in res['calls'])
+        return 1 if bad else 0
+    if 'history' in r:
+        res = ctx.run_impl('c09_impl.py', {'mode': 'histories', 'histories': [r['history']]})
+        print('history  :', r['history'])
+        print('observed : results equal to the pristine ones?', res['histories'][0]['flags'])
+        print('required : all True')
+        return 0 if all(res['histories'][0]['flags']) else 1
+    print(json.dumps(r, indent=1)[:3000])
+    return 0
+
+
+TRUSTED = [
+    'tools/alias2coq.py: syntactic translator Python ast -> Alias terms (fail-closed outside its subset); its classification tables '
+    '(FRESH_FUNCS, MAYBE_FUNCS, SHALLOW_FUNCS, M_FRESH, M_MAYBE, M_MUT, SCALAR_ATTRS) are the MODEL of which scipp/numpy/Python '
+    'primitive returns a new object / may return its argument / mutates its receiver; every scipp row is validated against the '
+    'installed scipp by the harness (numpy.shares_memory), numpy/builtin rows by a representative call',
+    'coq/C09/Alias.v: abstract interpreter (may-point-to sets over allocation sites, blobs for objects of unknown structure, '
+    'strong updates only for objects allocated once in the root frame, joins at branches, loop fixpoints, call-depth Kleene '
+    'iteration with an explicit closedness check); its soundness w.r.t. Python is not proved - it is the model',
+    'method calls on objects of unknown class dispatch to every analysed class defining the method; calls through '
+    'self._left/_right/peak/background dispatch to Model.__call__ (table CALLABLE_ATTRS)',
+    'arithmetic (BinOp/UnaryOp/Compare) always allocates; Python scalars (.value of 0-d variables, len, float) are values without a buffer',
+    'configuration bits: one per to/astype/to_unit(copy=False), as_float_type, sc.values, transpose/flatten/..., .fields.c call and one '
+    'per (function, indexed expression) for subscripts; context-insensitive across call sites',
+    'coq/C09/Handles.v: state machine of module tables / cache entries / stored variables; the descriptors come from decorators and '
+    'dataclass declarations read by the translator plus Alias.ret_*_fresh of the regenerated bodies; functools.lru_cache is modelled as '
+    '"returns the stored object" and is not verified',
+    'tools/harness/c09_impl.py: deep snapshots (values, variances, unit, dtype, dims, coords, masks, container identity structure), '
+    'argument generators, reset of lru caches / module tables between histories',
+]
+ASSUMPTIONS = [
+    'scipp primitives write only through out=, op= and slice assignment (no primitive classified Fresh/MaybeAlias writes its inputs)',
+    'DataArray op= writes the data buffer only (right-hand sides in the analysed code are variables, so no mask is or-ed in)',
+    'the aliasing condition of every MaybeAlias primitive can be arbitrary: all 2^n configurations are enumerated, so no assumption '
+    'on units/dtypes of the caller is made',
+]
+LEVEL_TEXT = (f'Proof: (a) for every analysed function ({len(theorem_functions())} functions regenerated from beamline.py, tof.py, model.py, _remove_peaks.py, '
+              '_fit_peaks.py, chopper_cascade.py, cylinder.py, atoms, graph factories, cif.py on this run) and for EVERY assignment of '
+              '"returns its argument" to the MaybeAlias sites (finite enumeration by vm_compute, lifted by Alias.check_sound) the symbolic '
+              'run writes no object reachable from a parameter and no module-level object; (b) for every history of factory / combinator '
+              '/ lookup calls interleaved with mutations of returned objects (induction over the list) every result equals the pristine '
+              'one, for the operation descriptors computed from the current source. The aliasing classification of scipp primitives is '
+              'MODELLED and validated row by row against the installed scipp (numpy.shares_memory) on every run; the implementation is '
+              'exercised with deep argument snapshots on ~150 public entry points x unit/dtype/layout variants and ~4000 histories, all '
+              'compared inside Coq.')
+LEVEL_NOTE = ('Trusted: Coq kernel (no axioms: Print Assumptions is closed); alias2coq translator and its classification tables; the abstract '
+              'interpreter Alias.v as the semantics of "writes"; lru_cache modelled; harness snapshots. Theorems are about the generated '
+              'terms, not about CPython.')
+TECHNIQUE = ('Coq: abstract interpretation (alias / points-to) of regenerated syntax with exhaustive enumeration of aliasing '
+             'configurations by vm_compute; inductive invariant over operation histories; correspondence of model rows, argument '
+             'snapshots and histories evaluated in Coq')
